@@ -14,11 +14,11 @@ PKG = "internal/index/manager"
 PRED_PROP = {
     "C06.NeverStale": "C06", "C06.SearchRight": "C06", "C06.ShownRight": "C06", "C06.truth-undefined": "C06",
     "C10.FreshViewShowsIndexList": "C10", "C10.ViewComplete": "C10", "C10.ViewStable": "C10", "C08.OneIdPerConn": "C10",
-    "C13.ViewReadFails": "C13", "C13.JobReadFails": "C13", "C13.NoUseAfterFree": "C13", "C13.Balanced": "C13",
+    "C13.ViewReadFails": "C13", "C13.ServedFileGone": "C13", "C13.JobReadFails": "C13", "C13.NoUseAfterFree": "C13", "C13.Balanced": "C13",
     "C13.LockCount": "C13", "C13.DirExactWhenQuiet": "C13", "C13.NoLeak": "C13",
     "C11.GraphWellFormed": "C11", "C11.ReferencedMirrors": "C11", "C11.RejectIsNoop": "C11", "C11.Applied": "C11",
     "C09.FlagsMatchJobs": "C09", "C09.Stuck": "C09", "C09.Settles": "C09",
-    "C12.TagsKept": "C12", "C12.SettingsKept": "C12", "C12.StreamsKept": "C12", "C12.Converges": "C12", "C12.ConvergesCorrect": "C12",
+    "C12.TagsKept": "C12", "C12.SettingsKept": "C12", "C12.CacheKept": "C12", "C12.StreamsKept": "C12", "C12.Converges": "C12", "C12.ConvergesCorrect": "C12",
     "C16.ConvFresh": "C16", "C16.ConvFreshAtRest": "C16", "C16.ConvEventually": "C16", "C16.DetachStops": "C16",
 }
 
@@ -80,7 +80,7 @@ def generate(ctx, consts, maxlen, n, depth, seeds, timeout=900):
 
 def to_schedule(sid, hist, convs=(), settle=True):
     steps = []
-    for e in hist:
+    for ei, e in enumerate(hist):
         st = {"a": e["a"]}
         if e["a"] == "ApiImport":
             st["k"] = e["k"]
@@ -97,9 +97,12 @@ def to_schedule(sid, hist, convs=(), settle=True):
         if e["a"] == "SetConverters":
             st["name"] = e["name"]
             st["convs"] = list(e.get("convs", []))
-        if e["a"] == "Crash":
-            st["what"] = e.get("what", "none")
+        if e["a"] in ("Crash", "Restart"):
+            st["what"] = e.get("what", "") or "none"
             st["cut"] = e.get("cut", 0)
+        if e["a"] == "Restart" and convs and ei % 3 == 1:
+            # the instant of the kill is the harness' choice: here inside the append of a converter cache record
+            st["what"], st["cut"] = "cache", ei * 7
         if e["a"] == "ConvReset":
             st["convs"] = list(e["convs"])
         if e["a"] == "UpdName":
@@ -453,6 +456,11 @@ def evaluate(ctx, pid, scheds, rows, crashes, states, trans, mc_notes, convs=(),
             f["info"] = "cause=" + fs["a"] + ("/" + fs["info"] if fs is not f and fs.get("info") else "")
     mine = [f for f in first_fails(fails) if PRED_PROP.get(f["what"]) == pid]
     others = sorted({f["what"] for f in fails if PRED_PROP.get(f["what"]) != pid})
+    # a fresh view that cannot read an index file the service serves: the file was closed or deleted while in use (C13)
+    gone = [f for f in fails if f["what"] == "obs-error" and re.search(r"closed|no such file|bad file descriptor", f.get("info", ""))]
+    for f in gone:
+        f["what"] = "C13.ServedFileGone"
+        f["info"] = ""
     infra_fail = [f for f in fails if f["what"] in ("obs-error", "dir-listing-differs")]
     if infra_fail:
         raise Infra("observation failed: %s" % infra_fail[0])
